@@ -316,20 +316,99 @@ def rule_generator_offsets(ctx, cfg='prod-all'):
                          fact={'len_H': tfmt(ln), 'len_msgs': tfmt(m.need[0][1])}, expected='equal')
 
 
+def _normalised_before(prog, eng, body, fd, root, use_block, depth=0):
+    """is the index list held in local `root` sorted and de-duplicated on every path to use_block?  Either both calls are made on it in this
+    body and dominate the use, or it is the result of a local helper that returns a list on which both calls dominate the return."""
+    sorts, dedups = [], []
+    for bi, t in body.calls():
+        cal = t.get('callee') or ''
+        if not t['args'] or t['args'][0]['k'] not in ('copy', 'move'):
+            continue
+        if fd.resolve_place(t['args'][0]['pl'])[0] != root:
+            continue
+        if cal.endswith(('::sort', '::sort_unstable')):
+            sorts.append(bi)
+        elif cal.endswith('::dedup'):
+            dedups.append(bi)
+    if any(body.dominates(s, use_block) for s in sorts) and any(body.dominates(d, use_block) for d in dedups):
+        return True, 'sort and dedup in %s' % body.path.split('::')[-1]
+    ds = fd.defs.get(root, [])
+    if depth < 3 and len(ds) == 1 and ds[0][0] == 'call':
+        tgt = local_target(eng, ds[0][2])
+        if tgt and tgt in prog.bodies and tgt != body.path:
+            cb, cfd = prog.bodies[tgt], eng.fndep(tgt)
+            rds = [d for d in cfd.defs.get(0, []) if not d[2].get('dst', {}).get('p')]
+            if len(rds) == 1 and rds[0][0] == 'assign' and rds[0][2]['rv']['k'] == 'use' and rds[0][2]['rv']['op']['k'] in ('copy', 'move'):
+                r2 = cfd.resolve_place(rds[0][2]['rv']['op']['pl'])[0]
+                ok, why = _normalised_before(prog, eng, cb, cfd, r2, rds[0][1], depth + 1)
+                if ok:
+                    return True, why
+    # a plain copy of a normalised list
+    if depth < 3 and len(ds) == 1 and ds[0][0] == 'assign' and ds[0][2]['rv']['k'] in ('use', 'ref'):
+        src = ds[0][2]['rv'].get('pl') or ds[0][2]['rv'].get('op', {}).get('pl')
+        if src is not None:
+            return _normalised_before(prog, eng, body, fd, fd.resolve_place(src)[0], ds[0][1], depth + 1)
+    return False, 'no dominating sort + dedup'
+
+
 def rule_index_normalisation(ctx, cfg='prod-all'):
-    """the disclosed index list is sorted and de-duplicated before its first use, on the prover and on the verifier side."""
+    """the disclosed index lists are sorted and de-duplicated before their first use, on the prover and on the verifier side (the two sides
+    must agree on the canonical form: the challenge hashes the list).  Judged per list argument handed to the consuming functions; the
+    normalisation may sit in the same function or in a helper that returns the list."""
     prog, eng = ctx.prog(cfg), ctx.eng(cfg)
     specs = [('bbsplus::proof::core_proof_gen', ['proof_init', 'get_remaining_indexes', 'proof_challenge_calculate']),
              (T.POK + 'proof_verify', ['core_proof_verify']),
              (T.POK + 'blind_proof_verify', ['core_proof_verify'])]
     for suffix, users in specs:
         b = resolve_fn(prog, suffix)
-        sorts = [bi for bi, t in b.calls() if (t.get('callee') or '').endswith('::sort') or (t.get('callee') or '').endswith('::sort_unstable')]
-        dedups = [bi for bi, t in b.calls() if (t.get('callee') or '').endswith('::dedup')]
-        uses = [bi for bi, t in b.calls() if any((local_target(eng, t) or '').endswith(u) for u in users)]
-        ok = bool(sorts) and bool(dedups) and bool(uses) and all(any(b.dominates(s, u) for s in sorts) and any(b.dominates(d, u) for d in dedups) for u in uses)
-        yield Ob('RF-B', '%s#index-normalisation' % b.path, ok, 'sort + dedup of the disclosed indexes dominate their use', b.span,
-                 fact={'sort_blocks': sorts, 'dedup_blocks': dedups, 'use_blocks': uses}, expected='sort and dedup dominate every use')
+        fd = eng.fndep(b.path)
+        n = 0
+        oks, facts = [], []
+        for bi, t in b.calls():
+            tgt = local_target(eng, t) or ''
+            if not any(tgt.endswith(u) for u in users):
+                continue
+            cb = prog.bodies[tgt]
+            for k, a in enumerate(t['args']):
+                if k + 1 > cb.arg_count or 'usize]' not in cb.local_ty(k + 1) or a['k'] not in ('copy', 'move'):
+                    continue
+                if 'index' not in (cb.local_name(k + 1) or ''):
+                    continue
+                root = fd.resolve_place(a['pl'])[0]
+                at = fd.read(root, ())
+                derived = any(strip(x)[0] == 'p' and 'index' in (b.local_name(strip(x)[1]) or '') for x in at)
+                if not derived:
+                    continue      # e.g. the list of undisclosed positions computed here
+                # lists merged from normalised pieces (blind interface): every piece must be normalised
+                roots = _list_sources(b, fd, root)
+                res = [_normalised_before(prog, eng, b, fd, r, bi) for r in roots]
+                n += 1
+                oks.append(all(r[0] for r in res))
+                facts.append({'user': tgt.split('::')[-1], 'arg': cb.local_name(k + 1), 'pieces': [r[1] for r in res]})
+        yield Ob('RF-B', '%s#index-normalisation' % b.path, n > 0 and all(oks), 'sort + dedup of the disclosed indexes dominate their use', b.span,
+                 fact=facts[:6], expected='every index list handed on is sorted and de-duplicated')
+
+
+def _list_sources(body, fd, root, depth=0):
+    """locals holding caller-given index lists that a derived list (chain / collect / extend) is built from"""
+    ds = fd.defs.get(root, [])
+    if depth > 4 or len(ds) != 1:
+        return [root]
+    kind, bi, x = ds[0]
+    if kind == 'call' and (x.get('callee') or '') in ('std::iter::Iterator::collect', 'std::ops::Try::branch', 'std::option::Option::<T>::ok_or_else',
+                                                       'std::option::Option::<T>::ok_or', 'std::iter::Iterator::chain', 'std::iter::Iterator::map',
+                                                       'std::iter::Iterator::copied', 'std::iter::Iterator::cloned', 'core::slice::<impl [T]>::iter',
+                                                       'std::iter::IntoIterator::into_iter', 'std::ops::Deref::deref'):
+        out = []
+        for a in x['args']:
+            if a['k'] in ('copy', 'move') and fd._closure_info(a['pl']['l']) is None:
+                out += _list_sources(body, fd, fd.resolve_place(a['pl'])[0], depth + 1)
+        return out or [root]
+    if kind == 'assign' and x['rv']['k'] in ('use', 'ref') and not x['dst'].get('p'):
+        src = x['rv'].get('pl') or x['rv'].get('op', {}).get('pl')
+        if src is not None and fd.resolve_place(src)[0] != root:
+            return _list_sources(body, fd, fd.resolve_place(src)[0], depth + 1)
+    return [root]
 
 
 def _linear(zf, t, depth=0):
@@ -455,7 +534,10 @@ def rule_index_translation(ctx, cfg='prod-all'):
                 continue
             par, _c, _w = _trace_identity(fd, b, {'k': 'copy', 'pl': {'l': root}})
             if par != kc:
-                continue
+                # normalised through a helper: derived from this index-list parameter and from no other one
+                ps = {strip(x)[1] for x in fd.read(root, ()) if strip(x)[0] == 'p' and 'usize]' in b.local_ty(strip(x)[1])}
+                if ps != {kc}:
+                    continue
             addend = closure_addend(zf, czf)
             which = cb.path.split('::')[-1]
         # what L is in this function
